@@ -136,7 +136,9 @@ theorem accept_inv (w : W) (d : Option Int) (h s b : Bool) (hi : Inv w) : Inv (w
 theorem closeGo_inv (w : W) (d : Option Int) (r : Bool) (code : Int) (hi : Inv w) : Inv (W.close.go d r w code).1 := by
   unfold W.close.go
   split
-  · exact hi
+  · split
+    · exact hi
+    · exact hi.weaken rfl (Or.inr rfl)
   rename_i hc
   have hnc : w.st ≠ .closed := by
     intro h; apply hc; simp [W.isClosed, h]
@@ -340,11 +342,12 @@ theorem emitted_trace_legal_mw (c : Cfg) (w : W) (mwReq mwRes : List Step) (r : 
     handler took over), the session ends closed, denied, or known to be lost -/
 
 theorem closeGo_closed (w : W) (d : Option Int) (r : Bool) (code : Int) (h : (W.close.go d r w code).2 = none) :
-    (W.close.go d r w code).1.st = .closed ∨ d.isSome = true := by
+    (W.close.go d r w code).1.st = .closed := by
   unfold W.close.go at h ⊢
   split
-  · rename_i hc
-    simpa [W.isClosed] using hc
+  · split
+    · rename_i hc; simpa using hc
+    · rfl
   · rename_i hc
     simp only [hc] at h
     generalize Ev.close code ((r || w.reasonCodes.contains code) && w.supReason) = ev at h ⊢
@@ -352,10 +355,10 @@ theorem closeGo_closed (w : W) (d : Option Int) (r : Bool) (code : Int) (h : (W.
     rw [hsend] at h
     cases ok
     · simp at h
-    · left; rfl
+    · rfl
 
 theorem close_closed (w : W) (d : Option Int) (a : CodeArg) (r : Bool) (h : (w.close d a r).2 = none) :
-    (w.close d a r).1.st = .closed ∨ d.isSome = true := by
+    (w.close d a r).1.st = .closed := by
   unfold W.close at h ⊢
   generalize w.stopPump = w0 at h ⊢
   simp only at h ⊢
@@ -372,8 +375,7 @@ theorem close_closed (w : W) (d : Option Int) (a : CodeArg) (r : Bool) (h : (w.c
         exact closeGo_closed w0 d r c h
   · exact closeGo_closed w0 d r 1000 h
 
-theorem cleanup_closed (w : W) (fd : Option Int) (h : (cleanup w fd).2 = none) :
-    (cleanup w fd).1.st = .closed ∨ fd.isSome = true := by
+theorem cleanup_closed (w : W) (fd : Option Int) (h : (cleanup w fd).2 = none) : (cleanup w fd).1.st = .closed := by
   unfold cleanup at h ⊢
   have h1 := close_closed w fd (.int w.errCloseCode) false
   rcases hc : w.close fd (.int w.errCloseCode) false with ⟨w1, eo⟩
@@ -386,7 +388,7 @@ theorem cleanup_closed (w : W) (fd : Option Int) (h : (cleanup w fd).2 = none) :
     | _ => simp at h
 
 theorem handleException_closed (c : Cfg) (hcu : c.custom = none) (w : W) (e : Exc) (h : (handleException c w e).2.2 = none) :
-    (handleException c w e).1.st = .closed ∨ c.fd.isSome = true := by
+    (handleException c w e).1.st = .closed := by
   cases e with
   | httpError s => exact close_closed w c.fd (.int (s + 3000)) false h
   | httpStatus s => exact close_closed w c.fd (.int (s + 3000)) false h
@@ -396,12 +398,12 @@ theorem handleException_closed (c : Cfg) (hcu : c.custom = none) (w : W) (e : Ex
     exact cleanup_closed w _ h
   | _ => exact cleanup_closed w _ h
 
-/-- **C17 `closed_unless_escaped`**: with the default error handlers, whatever the responder, the client and the server's
-    `send` do, when `_handle_websocket` returns normally the connection has been closed (or denied), or the framework had
-    observed the client's disconnect. -/
+/-- **C17 `closed_unless_escaped`**: with the default error handlers, whatever the responder, the client, the pump and the
+    server's `send` do, when `_handle_websocket` returns normally the socket is CLOSED: a close (or denial) was accepted by
+    the server, or the client's disconnect was received or observed, or a failing `send` was translated into a disconnect. -/
 theorem closed_unless_escaped (c : Cfg) (hcu : c.custom = none) (w : W) (script : Option (List Step))
     (h : (handle c w script).esc = none) :
-    (handle c w script).w.st = .closed ∨ c.fd.isSome = true := by
+    (handle c w script).w.st = .closed := by
   unfold handle at h ⊢
   cases script with
   | none => exact handleException_closed c hcu w _ h
@@ -422,7 +424,7 @@ theorem closed_unless_escaped (c : Cfg) (hcu : c.custom = none) (w : W) (script 
 
 theorem closed_unless_escaped_mw (c : Cfg) (hcu : c.custom = none) (w : W) (mwReq mwRes : List Step) (r : Route)
     (h : (handleMw c w mwReq mwRes r).esc = none) :
-    (handleMw c w mwReq mwRes r).w.st = .closed ∨ c.fd.isSome = true := by
+    (handleMw c w mwReq mwRes r).w.st = .closed := by
   unfold handleMw at h ⊢
   cases r with
   | responder sc => exact closed_unless_escaped c hcu w _ h
@@ -466,7 +468,8 @@ theorem close_after_closed_silent (w : W) (d : Option Int) (a : CodeArg) (r : Bo
     unfold W.close.go W.isClosed
     rcases h with h | h
     · simp [h0, h, h1]
-    · simp [h, h1]
+    · simp only [h, Bool.or_true, if_true]
+      split <;> exact h1
   unfold W.close
   have hw0 := stopPump_st w
   have hw1 := stopPump_sent w
@@ -480,6 +483,19 @@ theorem close_after_closed_silent (w : W) (d : Option Int) (a : CodeArg) (r : Bo
       · exact hw1
       · exact hic w0 hw0 hw1 _
   · exact hic w0 hw0 hw1 _
+
+/-- `close()` on a socket whose pump has seen the client's disconnect sends nothing and records the disconnect: the state is
+    CLOSED with the client's code, so every later `send_*`/`receive_*` raises `WebSocketDisconnected(code)`
+    (`wrong_state_send`, `wrong_state_recv`) -/
+theorem close_records_disconnect (w : W) (c : Int) (r : Bool) (h : w.st ≠ .closed) :
+    (w.close (some c) .none r).1.st = .closed ∧ (w.close (some c) .none r).1.closeCode = some c
+    ∧ (w.close (some c) .none r).2 = none ∧ (w.close (some c) .none r).1.sent = w.sent := by
+  unfold W.close
+  have e0 := stopPump_st w
+  have e1 := stopPump_sent w
+  generalize w.stopPump = w0 at e0 e1
+  have : (w0.st == S.closed) = false := by rw [e0]; simpa using h
+  simp [W.close.go, W.isClosed, this, e1]
 
 /-- the close-code validation table: exactly the codes < 1000, 1004-1006 and 1015-1999 are rejected -/
 theorem close_code_validation_exact (w : W) (d : Option Int) (c : Int) (r : Bool) :
